@@ -51,8 +51,18 @@ func wPt(sb *strings.Builder, p orb.Point) {
 	sb.WriteString(fb(p[1]))
 }
 
+// innerNilMode: when set (by gsN only) a nil slice BELOW the top level is written as the count
+// token "n" (a nil ring of a polygon, a nil line of a multi line string, a nil polygon of a multi
+// polygon); the Lean side reads "n" as an empty list (below the top level the models do not
+// distinguish nil from empty: the code must treat both alike), the Go side rebuilds a nil slice.
+var innerNilMode = false
+
 func wPts(sb *strings.Builder, ps []orb.Point) {
 	sb.WriteString(" ")
+	if ps == nil && innerNilMode {
+		sb.WriteString("n")
+		return
+	}
 	sb.WriteString(strconv.Itoa(len(ps)))
 	for _, p := range ps {
 		wPt(sb, p)
@@ -116,6 +126,10 @@ func wGeom(sb *strings.Builder, g orb.Geometry) {
 		sb.WriteString(strconv.Itoa(len(g)))
 		for _, pg := range g {
 			sb.WriteString(" ")
+			if pg == nil && innerNilMode {
+				sb.WriteString("n")
+				continue
+			}
 			sb.WriteString(strconv.Itoa(len(pg)))
 			for _, l := range pg {
 				wPts(sb, l)
@@ -150,6 +164,14 @@ func gs(g orb.Geometry) string {
 	return strings.TrimSpace(sb.String())
 }
 
+// gsN is gs with nil slices below the top level kept distinguishable (token "n").
+// Used for case INPUTS of the properties whose quantifier includes nil-slice members.
+func gsN(g orb.Geometry) string {
+	innerNilMode = true
+	defer func() { innerNilMode = false }()
+	return gs(g)
+}
+
 type tokReader struct {
 	t []string
 	i int
@@ -169,6 +191,10 @@ func (r *tokReader) pt() orb.Point { x := r.f(); y := r.f(); return orb.Point{x,
 // pts reads a vertex list.  The slice is given spare capacity filled with sentinel points (as a
 // sub-slice of a larger buffer would have), so code that reslices or reads beyond len is observable.
 func (r *tokReader) pts() []orb.Point {
+	if r.i < len(r.t) && r.t[r.i] == "n" {
+		r.i++
+		return nil
+	}
 	n := r.int()
 	buf := make([]orb.Point, n+3)
 	for i := 0; i < n; i++ {
@@ -228,6 +254,10 @@ func (r *tokReader) geom() orb.Geometry {
 		n := r.int()
 		m := make(orb.MultiPolygon, n)
 		for i := range m {
+			if r.i < len(r.t) && r.t[r.i] == "n" {
+				r.i++
+				continue // nil polygon member
+			}
 			k := r.int()
 			pg := make(orb.Polygon, k)
 			for j := range pg {
